@@ -385,7 +385,7 @@ func TestC23Contention(t *testing.T) {
 	}
 
 	rng := vh.Rand("c23-rounds")
-	n := vh.N(2000, 70000) // per GOMAXPROCS variant (thorough runs 3 variants: 210 000 rounds)
+	n := vh.N(2000, 40000) // per GOMAXPROCS variant (thorough runs 3 variants: 120 000 rounds; 3 x 70 000 took 100 min on a loaded 16-core box)
 
 	for i := 0; i < n; i++ {
 		doRound(c23GenRound(rng), i)
